@@ -20,7 +20,13 @@ def run(c):
               "strings (hand-picked boundary forms incl. multi-digit and numeric-prerelease pairs, and generated ones with a "
               "component bumped across a digit boundary) compared with x/mod/semver, and dawn's cmpVersion judged against the "
               "reference order. The reference build list is computed from the universe the generator intended (a pseudo-version "
-              "declares what its directory says at its revision), never from what the resolver fetched."),
+              "declares what its directory says at its revision), never from what the resolver fetched. In half of the cases every "
+              "dawn.toml — the dependencies' and the root's, which is then written to a file and loaded with LoadConfigFile as "
+              "the CLI does — spells a share of its requirement paths non-canonically (trailing slash, /./, //, x/../x, a "
+              "redundant @v1/@v0); the universe, the model and the reference are over clean paths, the spelled→clean map is "
+              "the harness's own cleaning rule (not dawn's CleanPath). Resolver reuse: one Resolver, then a fresh one over "
+              "the cache it filled, resolves root A, one or two other roots, and A again; every answer is judged against the "
+              "reference of its own root and the model is run on every root."),
         judge_note="BuildList map (without the root entry) == reachability/max reference over the intended universe; cmpVersion == "
                    "reference order on canonical versions; list has each path once; "
                    "error iff a reachable requirement cannot be fetched; 5 repeats across cold/disk/mem caches and a permuted "
